@@ -10,7 +10,7 @@ open SimVerif SimVerif.Wire SimVerif.Driver
 structure DState where
   constr : ConstrD.St := {}
   store : StoreD.St := {}
-  trk : TrkD.St := {}
+  trk : TrkD.Slots := {}
 
 /-- one request per line: `<family> <args…> => <implementation's answer…>`; one answer per line -/
 def step (st : DState) (line : String) : DState × String :=
